@@ -174,7 +174,9 @@ def check(report, tier, only=None):
            ('not_found', lambda rep: ob_no_panic(rep, 'not_found_total', 'NotFound fallback on an arbitrary route string', lambda ex: find_method(ex.prog, 'NotFound', 'call', trait='Service'))),
            ('inbound_timeout', lambda rep: ob_no_panic(rep, 'inbound_timeout_total', 'inbound Timeout::call on an arbitrary `timeout` header', lambda ex: find_method(ex.prog, 'Timeout', 'call', trait='Service', file_re=r'timeout/inbound\.rs'),
                                                           models=[(re.compile(p) if isinstance(p, str) else p, f) for p, f in C11.TIMEOUT_MODELS], depth=4)),
-           ('try_parse', C11.ob_try_parse)]
+           ('try_parse', C11.ob_try_parse),
+           # a stream's decoder sees that stream's bytes only: nothing a peer sends on one stream can make a later, well-formed request fail
+           ('stream_handler', lambda rep: rpcpath.ob_do_handle(rep, PROP))]
     for n, f in obs:
         if only and not any(s in n for s in only):
             continue
